@@ -48,6 +48,7 @@
 #include <semaphore.h>
 #include <sys/wait.h>
 #include <sys/stat.h>
+#include <time.h>
 #include "uv.h"
 
 #define MAXH 8
@@ -436,6 +437,61 @@ static void run_fork_case(char* line) {
   }
 }
 
+/* ---- stress (monitor only): "stress <iterations>" ----
+ * The main thread churns uv_signal_start / uv_signal_stop on a signal that another handle keeps
+ * watched, while a helper thread (all signals blocked) sends that signal to the main thread as fast
+ * as it can.  A signal that arrives inside a critical section must just wait for the mask to be
+ * restored; the run fails only if the main thread makes no progress for 3 seconds. */
+static volatile long stress_iter, stress_sent;
+static volatile int stress_done;
+
+static void* stress_helper(void* arg) {
+  pthread_t target = *(pthread_t*) arg;
+  long last = -1; int idle_ms = 0; long k = 0;
+  struct timespec ts = { 0, 1000000 };
+  while (!stress_done) {
+    pthread_kill(target, SIGUSR1); stress_sent++;
+    if ((++k & 1023) == 0) {                       /* about once a millisecond: look at the progress */
+      nanosleep(&ts, NULL);
+      if (stress_iter != last) { last = stress_iter; idle_ms = 0; }
+      else if (++idle_ms > 3000) {
+        printf("stress hang after %ld iterations, %ld signals sent\n", stress_iter, stress_sent);
+        fflush(stdout); _exit(0);
+      }
+    }
+  }
+  return NULL;
+}
+
+static void stress_cb(uv_signal_t* h, int signum) { (void) h; (void) signum; }
+
+static void run_stress(long n) {
+  pthread_t helper, self = pthread_self();
+  pthread_attr_t at; sigset_t all, old;
+  long i;
+  nloops = 1; cap = 4096;
+  wk[0].idx = 0; wk[0].tid = pthread_self();
+  exec_on(0, C_INITLOOP, NULL);
+  if (wk[0].ret) { printf("envfail loop_init %d\n", wk[0].ret); return; }
+  uv_signal_init(&loops[0], &hs[0]); uv_signal_init(&loops[0], &hs[1]);
+  if (uv_signal_start(&hs[0], stress_cb, SIGUSR1)) { printf("envfail start\n"); return; }
+  sigfillset(&all); pthread_sigmask(SIG_SETMASK, &all, &old);   /* the helper inherits: everything blocked */
+  pthread_attr_init(&at);
+  if (pthread_create(&helper, &at, stress_helper, &self)) { printf("envfail thread\n"); return; }
+  pthread_sigmask(SIG_SETMASK, &old, NULL);
+  for (i = 0; i < n; i++) {
+    uv_signal_start(&hs[1], stress_cb, (i & 1) ? SIGUSR1 : SIGUSR2);
+    uv_signal_stop(&hs[1]);
+    if ((i & 63) == 0) uv_run(&loops[0], UV_RUN_NOWAIT);
+    stress_iter = i + 1;
+  }
+  stress_done = 1;
+  pthread_join(helper, NULL);
+  printf("stress ok %ld ", n);
+  print_lock();
+  printf("\n");
+}
+
 int main(void) {
   static char line[1 << 16];
   {
@@ -455,7 +511,9 @@ int main(void) {
     pid = fork();
     if (pid == 0) {
       alarm(20);
-      if (strncmp(line, "fork ", 5) == 0) run_fork_case(line + 5); else run_case(line);
+      if (strncmp(line, "fork ", 5) == 0) run_fork_case(line + 5);
+      else if (strncmp(line, "stress ", 7) == 0) run_stress(atol(line + 7));
+      else run_case(line);
       fflush(stdout);
       _exit(0);
     }
